@@ -215,6 +215,12 @@ impl<'a> Lowerer<'a> {
         def
     }
 
+    fn alloc_fix_def(&mut self) -> DefId {
+        let def = self.arena.admin.fresh();
+        self.scoped.insert_def(def, VarName("__fix__".to_owned()));
+        def
+    }
+
     fn alloc_pure_result(&mut self) -> DefId {
         let def = self.arena.admin.fresh();
         self.scoped.insert_def(def, VarName("__pure_result__".to_owned()));
@@ -520,19 +526,25 @@ impl Lower for ss::CompuId {
                 body.lower(lo, stack)
             }
             | Compu::Fix(Fix(param, body)) => {
-                // Extract DefId from binder (should be a Var pattern)
                 use ss::ValuePattern as VPat;
-                let def_id = match &lo.statics.vpats[&param] {
-                    | VPat::Var(def) => *def,
-                    | _ => {
-                        let fmt = zydeco_statics::fmt::Formatter::new(lo.scoped, lo.statics);
-                        let param_str = param.ugly(&fmt);
-                        panic!("Fix param must be a variable, found:\n{}", param_str);
-                    }
-                };
                 let body_stack = Bullet.build(lo, site);
-                let body_compu = body.lower(lo, body_stack);
-                SFix { param: def_id, stack, body: body_compu }.build(lo, site)
+                match &lo.statics.vpats[&param] {
+                    | VPat::Var(def) => {
+                        let def_id = *def;
+                        let body_compu = body.lower(lo, body_stack);
+                        SFix { param: def_id, stack, body: body_compu }.build(lo, site)
+                    }
+                    | _ => {
+                        // Any other irrefutable binder (`_`, an alias `(f; g)`) is bound from a
+                        // fresh recursion variable at the head of the body.
+                        let def_id = lo.alloc_fix_def();
+                        let binder = param.lower(lo, ());
+                        let bindee = def_id.build(lo, site);
+                        let tail = body.lower(lo, body_stack);
+                        let body_compu = Let { binder, bindee, tail }.build(lo, site);
+                        SFix { param: def_id, stack, body: body_compu }.build(lo, site)
+                    }
+                }
             }
             | Compu::Force(Force(body)) => {
                 let body = body.lower(lo, ());
